@@ -473,7 +473,7 @@ func judgeProgram(c ProgramCase) (vs []evid.Violation) {
 	defer func() {
 		if reps := raceSince(mark); len(reps) > 0 {
 			hist.Race = reps[0]
-			vs = append(vs, evid.V("no-data-race", "race detector report with a frame in %s (%d report(s) during this program):\n%s", raceFilter, len(reps), reps[0]))
+			vs = append(vs, evid.V("no-data-race", "race detector report with a frame in %s\n%d report(s) during this program:\n%s", raceFilter, len(reps), reps[0]))
 			if n := raceSaved.Add(1); n <= 3 {
 				hist.Verdict = vs
 				writeHistory(fmt.Sprintf("history-%s-race%d.json", shard(), n), hist)
@@ -620,12 +620,12 @@ func judgeProgram(c ProgramCase) (vs []evid.Violation) {
 			defer ts.finished.Store(true)
 			defer func() {
 				if p := recover(); p != nil {
-					ts.vs = append(ts.vs, evid.V("no-panic", "goroutine %d panicked: %v\n%s", ti, p, debugStack()))
+					ts.vs = append(ts.vs, evid.V("no-panic", "a wallet operation panicked\ngoroutine %d: %v\n%s", ti, p, debugStack()))
 				}
 			}()
 			<-start
-			mine := map[int]bool{}  // keys whose file this goroutine created (completely)
-			sure := map[int]bool{}  // … and then saw a Refresh return: the wallet must know them
+			mine := map[int]bool{}       // keys whose file this goroutine created (completely)
+			sure := map[int]bool{}       // … and then saw a Refresh return: the wallet must know them
 			for i := 0; i < c.Pre; i++ { // discovered by Initialize
 				sure[i] = true
 			}
@@ -674,16 +674,16 @@ func judgeProgram(c ProgramCase) (vs []evid.Violation) {
 						}
 						h := hex.EncodeToString(a[:])
 						if seen[h] {
-							ts.vs = append(ts.vs, evid.V("accounts-no-duplicates", "GetAccounts lists %s twice (%d entries)", h, len(accs)))
+							ts.vs = append(ts.vs, evid.V("accounts-no-duplicates", "GetAccounts lists an address twice\n%s (%d entries)", h, len(accs)))
 						}
 						seen[h] = true
 						if !planned[h] {
-							ts.vs = append(ts.vs, evid.V("accounts-known", "GetAccounts lists %s for which no file was ever created", h))
+							ts.vs = append(ts.vs, evid.V("accounts-known", "GetAccounts lists an address for which no file was ever created\n%s", h))
 						}
 					}
 					for k := range sure {
 						if !seen[ks[k].hex40] {
-							ts.vs = append(ts.vs, evid.V("accounts-converge", "GetAccounts misses %s although its file was complete before a Refresh that returned earlier in this goroutine", ks[k].hex40))
+							ts.vs = append(ts.vs, evid.V("accounts-converge", "GetAccounts misses an address although its file was complete before a Refresh that returned earlier in the same goroutine\n%s", ks[k].hex40))
 						}
 					}
 				case "listen":
@@ -727,7 +727,7 @@ func judgeProgram(c ProgramCase) (vs []evid.Violation) {
 					if err != nil {
 						rec.Err = firstLine(err.Error())
 						if sure[op.A] {
-							ts.vs = append(ts.vs, evid.V("sign-usable", "%s for %s failed although the wallet must know the (complete) key file: %v", op.K, k.hex40, err))
+							ts.vs = append(ts.vs, evid.V("sign-usable", "signing failed although the wallet must know the (complete) key file\n%s for %s: %v", op.K, k.hex40, err))
 						}
 					}
 				case "close":
@@ -737,7 +737,7 @@ func judgeProgram(c ProgramCase) (vs []evid.Violation) {
 					}
 					if c.Listener && baseInotify >= 0 {
 						if n := inotifyFDs(); n > baseInotify {
-							ts.vs = append(ts.vs, evid.V("close-stops-listener", "Close returned but the wallet's inotify descriptor is still open (%d > %d before the wallet existed): the event loop was not waited for", n, baseInotify))
+							ts.vs = append(ts.vs, evid.V("close-stops-listener", "Close returned but the wallet's inotify descriptor is still open: the event loop was not waited for\n%d open > %d before the wallet existed", n, baseInotify))
 						}
 					}
 				default:
@@ -792,7 +792,7 @@ func judgeProgram(c ProgramCase) (vs []evid.Violation) {
 		}
 		p := dumpGoroutines("stuck")
 		// the blocked goroutines still own their records: do not touch them
-		return append(vs, evid.V("liveness", "no operation completed for %s with the process otherwise idle; blocked: %s; goroutine dump: %s", liveness, strings.Join(blocked, ", "), p))
+		return append(vs, evid.V("liveness", "no operation completed for %s with the process otherwise idle\nblocked: %s; goroutine dump: %s", liveness, strings.Join(blocked, ", "), p))
 	}
 	for _, ts := range threads {
 		vs = append(vs, ts.vs...)
@@ -809,7 +809,7 @@ func judgeProgram(c ProgramCase) (vs []evid.Violation) {
 			return true
 		case <-time.After(liveness):
 			p := dumpGoroutines("stuck")
-			vs = append(vs, evid.V("liveness", "%s did not return within %s; goroutine dump: %s", what, liveness, p))
+			vs = append(vs, evid.V("liveness", "%s did not return within %s\ngoroutine dump: %s", what, liveness, p))
 			return false
 		}
 	}
@@ -856,13 +856,13 @@ func judgeProgram(c ProgramCase) (vs []evid.Violation) {
 			okSeen := waitFor(func() bool { m, _ := accountSet(); return m[ks[sentinel].hex40] > 0 })
 			if !okSeen {
 				p := dumpGoroutines("stuck")
-				vs = append(vs, evid.V("accounts-converge", "a key file created with the listener running was not listed within %s (no Refresh); goroutine dump: %s", liveness, p))
+				vs = append(vs, evid.V("accounts-converge", "a key file created with the listener running was not listed within %s (no Refresh)\ngoroutine dump: %s", liveness, p))
 			} else {
 				note("dyn:converged-by-events-alone(sentinel)")
 				m, l := accountSet()
 				for h := range created {
 					if m[h] == 0 {
-						vs = append(vs, evid.V("accounts-converge", "listener running, all file-system events handled, but GetAccounts misses %s (has %d of %d)", h, len(l), len(created)))
+						vs = append(vs, evid.V("accounts-converge", "listener running, all file-system events handled, but GetAccounts misses an address\n%s (has %d of %d)", h, len(l), len(created)))
 						break
 					}
 				}
@@ -874,7 +874,7 @@ func judgeProgram(c ProgramCase) (vs []evid.Violation) {
 	}
 	if c.Listener && baseInotify >= 0 {
 		if n := inotifyFDs(); n > baseInotify {
-			vs = append(vs, evid.V("close-stops-listener", "Close returned but the wallet's inotify descriptor is still open (%d > %d before the wallet existed): the event loop was not waited for", n, baseInotify))
+			vs = append(vs, evid.V("close-stops-listener", "Close returned but the wallet's inotify descriptor is still open: the event loop was not waited for\n%d open > %d before the wallet existed", n, baseInotify))
 		}
 	}
 	if !timed("Refresh", func() {
@@ -887,7 +887,7 @@ func judgeProgram(c ProgramCase) (vs []evid.Violation) {
 	// every notification goroutine the wallet started has to finish (the listener channels are drained)
 	if !waitFor(func() bool { return goroutinesIn("fswallet.(*fsWallet).notifyNewFiles") <= baseDispatch }) {
 		p := dumpGoroutines("stuck")
-		vs = append(vs, evid.V("liveness", "notification dispatch still running %s after the last operation although every listener channel is being drained; goroutine dump: %s", liveness, p))
+		vs = append(vs, evid.V("liveness", "notification dispatch still running %s after the last operation although every listener channel is being drained\ngoroutine dump: %s", liveness, p))
 		return vs
 	}
 	stopListeners()
@@ -897,15 +897,15 @@ func judgeProgram(c ProgramCase) (vs []evid.Violation) {
 	hist.Final = final
 	for h, n := range m {
 		if n > 1 {
-			vs = append(vs, evid.V("accounts-no-duplicates", "final GetAccounts lists %s %d times", h, n))
+			vs = append(vs, evid.V("accounts-no-duplicates", "final GetAccounts lists an address more than once\n%s %d times", h, n))
 		}
 		if !created[h] {
-			vs = append(vs, evid.V("accounts-converge", "final GetAccounts lists %s but no such file exists", h))
+			vs = append(vs, evid.V("accounts-converge", "final GetAccounts lists an address for which no file exists\n%s", h))
 		}
 	}
 	for h := range created {
 		if m[h] == 0 {
-			vs = append(vs, evid.V("accounts-converge", "after a final Refresh GetAccounts misses %s (%d listed, %d files)", h, len(m), len(created)))
+			vs = append(vs, evid.V("accounts-converge", "after a final Refresh GetAccounts misses an address that has a file\n%s (%d listed, %d files)", h, len(m), len(created)))
 		}
 	}
 	sort.Slice(all, func(i, j int) bool { return all[i].id < all[j].id })
@@ -918,10 +918,10 @@ func judgeProgram(c ProgramCase) (vs []evid.Violation) {
 		}
 		for h, n := range cnt {
 			if n > 1 {
-				vs = append(vs, evid.V("notify-never-twice", "listener %d received %s %d times", l.id, h, n))
+				vs = append(vs, evid.V("notify-never-twice", "a listener received an address more than once\nlistener %d received %s %d times", l.id, h, n))
 			}
 			if !created[h] {
-				vs = append(vs, evid.V("notify-known-address", "listener %d received %s for which no file exists", l.id, h))
+				vs = append(vs, evid.V("notify-known-address", "a listener received an address for which no file exists\nlistener %d received %s", l.id, h))
 			}
 			if l.seqAfter > firstSeq[h] {
 				latePairs++
@@ -931,7 +931,7 @@ func judgeProgram(c ProgramCase) (vs []evid.Violation) {
 			if l.seqAfter < firstSeq[h] || (l.seqAfter == 0 && firstSeq[h] == 0) {
 				mustPairs++
 				if cnt[h] != 1 {
-					vs = append(vs, evid.V("notify-exactly-once", "listener %d was registered (seq %d) before the first file for %s was created (seq %d) but received it %d times", l.id, l.seqAfter, h, firstSeq[h], cnt[h]))
+					vs = append(vs, evid.V("notify-exactly-once", "a listener registered before the first file for an address was created did not receive that address exactly once\nlistener %d (registered at seq %d), address %s (file created at seq %d): received %d times", l.id, l.seqAfter, h, firstSeq[h], cnt[h]))
 				}
 			}
 		}
